@@ -47,7 +47,8 @@ CHECKS = {
                 rule="one case = one history; after every step Get at every offset in [0, NextOffset+2] and both relative offsets, classified live/deleted/unassigned by the model, and compared with Consume(offset,1); non-trivial = a deleted offset was queried on a state with >=2 segments; distinct by trace hash"),
     "C08": dict(level="exploration", jobs=[J("TestC08Windows", (4, 1200), (16, 15000), timeout=(900, 5400)), J("TestC08Stress", (4, 3), (16, 10), race=True, kind="plain", timeout=(900, 5400)),
                                                  J("TestC08Windows", (4, 300), (16, 4000), race=True, env={"VF_TIMED": "1"}, timeout=(900, 5400)),
-                                                 J("TestC08Duets", (4, 0), (12, 0), race=True, kind="plain", timeout=(900, 5400))],
+                                                 J("TestC08Duets", (4, 0), (12, 0), race=True, kind="plain", timeout=(900, 5400)),
+                                                 J("TestC08BigAppends", (4, 0), (8, 0), kind="plain", timeout=(600, 1800))],
                 rule="windows job: one evaluation = one owned schedule: a generated sequential prefix (publish/delete/GC on a small-rollover log), then call A (Publish with/without rollover, Delete on head/reader segment, a read, GC) held at the k-th occurrence of one of 11 pause points while up to two further complete calls (any of Publish, Consume, ConsumeByKey, Get, GetByKey, GetByTime, Delete, NextOffset, Sync, GC, Stat) are issued, then A is released; oracle = brute-force linearization of the <=3 calls (some order consistent with real time replays on the reference model with every observed result admissible, no error the sequential contract does not allow); non-trivial = the armed point was actually reached; distinct by (point, call kinds, occurrence, case hash). stress job (built with -race): one evaluation = one API call inside a seeded free-running mix (1-3 publishers, 1-2 deleters aimed at the head, 1-3 cursor readers doing all read calls, GC/Stat/Sync) with timed sleeps at the pause points; oracle = Go race detector + history invariants (disjoint dense offset ranges, content never changes, nothing disappears or is stepped over unless a Delete reported it, no call fails because of concurrent activity, final content == published minus reported deleted); non-trivial round = at least one rollover and one delete of the newest message. Half of the window cases are focused templates (delete in the writing segment while a publish rolls it over, publish vs delete/GC/Stat/Sync, GC vs reads and deletes in the unloaded segment). A duets job (-race) runs 12 pairs of call kinds x KeepRewriteVersion on/off with only two goroutines, because in the full mix the detector's 4-entry access history of a hot address is usually overwritten by properly locked readers before the racy access happens. The windows job also runs on the -race binary in timed mode (A is held by a sleep instead of a channel, so the detector sees the other calls as concurrent with the rest of A)",
                 level_note="interleavings reachable through the listed pause points plus what the seeded stress happens to hit; the race detector only reports races that execute; free-running runs are not reproducible by construction (their replay file is the recorded history / race report)"),
     "C09": dict(level="exploration", jobs=[J("TestC09", (4, 500), (16, 5000), steps=40)],
